@@ -23,8 +23,10 @@ TECHNIQUE = ("exhaustive exploration: every multi-rank program of the bounded C0
 RULE = ("states = (program, tag typing, reduction order) combinations, transitions = collective rounds replayed; oracle per "
         "state: each overall output and sent array produced by exactly one part; every name read is a user input, received "
         "by that or an earlier part, or an earlier part's output; received names never outputs, sent names always; no "
-        "communication nodes inside part expressions; needed_pids acyclic and consistent with part order; same number of "
-        "parts on all ranks and send round < receive round for every message; verifier accepts on all ranks; after "
+        "communication nodes inside part expressions; needed_pids acyclic; the global graph of parts over all ranks "
+        "(needed_pids + one edge per message) acyclic and a global round numbering exists (strictly increasing along every "
+        "rank's part order, receiving part = sending part + 1 for every message); the partition does not depend on the "
+        "reduction order; verifier accepts on all ranks; after "
         "numbering both ends of a message carry the same int, distinct messages between one ordered pair distinct ints, "
         "next_tag identical on all ranks")
 ASSUMPTIONS = [
